@@ -1,6 +1,15 @@
 """T1 readers for C18 (req_compile/repos/source.py).  Fail-closed: every AST shape the
 model relies on is matched literally; anything else raises TranslateError.
 
+The readers see the NORMALISED AST of translate.parse (T1_NORMALIZE.md): no docstrings, no
+annotations (`x: T = v` is `x = v`), no effect-free log statements.  Expected shapes written as
+source text go through T.parse_src, so both sides are normalised the same way.  Tolerated on
+top of that: extra optional parameters (with defaults) at the end of _extract_metadata /
+_extract_metadata_locked and keyword arguments handing them on; statements in the two
+`except` handlers of _extract_metadata that only append to / assign an attribute of self that
+the modelled code never reads (anything but _find_later, distributions, marker_files, path,
+parallelism); a new attribute assigned in __init__.
+
 Generated: coq/gen/C18Consts.v with
   special_dirs, marker_files_default, project_files, testdir_names, testdir_suffixes,
   defer_file, pass1_allow_setup_py, pass2_allow_setup_py.
@@ -36,6 +45,56 @@ def _str_set(node: ast.expr, what: str) -> List[str]:
     return sorted(set(vals))
 
 
+def _tmpl(text: str) -> str:
+    """one expected statement, normalised like the code that is read"""
+    m = T.parse_src(text)
+    if len(m.body) != 1:
+        raise TranslateError("internal: template is not a single statement: " + text[:60])
+    return _src(m.body[0])
+
+
+MODELLED_ATTRS = {"_find_later", "distributions", "marker_files", "path", "parallelism", "logger"}
+
+
+def _params(fn: ast.FunctionDef, want: List[str], what: str) -> List[str]:
+    """the parameters the reader needs, by name, in order; any further ones must be optional.
+    Returns the names of the extra (defaulted) parameters."""
+    a = fn.args
+    names = [x.arg for x in a.args]
+    if names[:len(want)] != want or a.vararg or a.kwarg or a.posonlyargs:
+        raise TranslateError(f"{what}: argument list changed: {names}")
+    extra = names[len(want):]
+    if len(a.defaults) < len(extra):
+        raise TranslateError(f"{what}: new parameter without a default: {extra}")
+    if len(a.defaults) > len(extra):
+        raise TranslateError(f"{what}: a modelled parameter got a default")
+    kwonly = [x.arg for x in a.kwonlyargs]
+    if any(d is None for d in a.kw_defaults):
+        raise TranslateError(f"{what}: required keyword-only parameter")
+    return extra + kwonly
+
+
+def _uses(node: ast.AST, names: List[str]) -> bool:
+    return any(isinstance(n, ast.Name) and n.id in names for n in ast.walk(node))
+
+
+def _inert_self_update(st: ast.stmt) -> bool:
+    """`self.<new attr>.append(<name>)` / `self.<new attr> = <effect-free>` / `self.<new attr> += ...`:
+    book-keeping on an attribute the modelled code never reads"""
+    def fresh(t: ast.AST) -> bool:
+        return (isinstance(t, ast.Attribute) and isinstance(t.value, ast.Name) and t.value.id == "self"
+                and t.attr not in MODELLED_ATTRS)
+    if (isinstance(st, ast.Expr) and isinstance(st.value, ast.Call) and isinstance(st.value.func, ast.Attribute)
+            and st.value.func.attr in ("append", "add", "extend", "update") and fresh(st.value.func.value)
+            and not st.value.keywords and all(T._pure(a) for a in st.value.args)):
+        return True
+    if isinstance(st, ast.Assign) and len(st.targets) == 1 and fresh(st.targets[0]) and T._pure(st.value):
+        return True
+    if isinstance(st, ast.AugAssign) and fresh(st.target) and T._pure(st.value):
+        return True
+    return False
+
+
 def _method(cls: ast.ClassDef, name: str) -> ast.FunctionDef:
     for n in cls.body:
         if isinstance(n, ast.FunctionDef) and n.name == name:
@@ -61,7 +120,9 @@ def read_source(ctx: Any = None) -> dict:
 
     # ---- the walk
     fn = _method(cls, "_find_all_source_dirs")
-    body = [s for s in fn.body if not (isinstance(s, ast.Expr) and isinstance(s.value, ast.Constant))]
+    if [a.arg for a in fn.args.args][:2] != ["self", "excluded_paths"]:
+        raise TranslateError("_find_all_source_dirs: argument list changed")
+    body = list(fn.body)          # normalised: no docstring, no log lines
     if len(body) != 1 or not isinstance(body[0], ast.For):
         raise TranslateError("_find_all_source_dirs: body is not a single for loop")
     loop = body[0]
@@ -85,6 +146,7 @@ def read_source(ctx: Any = None) -> dict:
         5: "root_is_valid = False",
     }
     for i, want in fixed.items():
+        want = _tmpl(want)
         if _src(st[i]) != want:
             raise TranslateError(f"_find_all_source_dirs: statement {i + 1} changed:\n{_src(st[i])}\n-- expected:\n{want}")
     # statement 7: for filename in files: if filename in (<project files>): root_is_valid = True
@@ -137,22 +199,28 @@ def read_source(ctx: Any = None) -> dict:
     # ---- _extract_metadata: (optionally) one analysis at a time; deferral of setup.py projects in
     # the first pass; MetadataError and SystemExit mean "this project cannot be analysed"
     em = _method(cls, "_extract_metadata")
-    if [a.arg for a in em.args.args] != ["self", "allow_setup_py", "source_dir"]:
-        raise TranslateError("_extract_metadata: argument list changed")
+    extra = _params(em, ["self", "allow_setup_py", "source_dir"], "_extract_metadata")
     serialised = False
     if len(em.body) == 1 and isinstance(em.body[0], ast.With):
         w = em.body[0]
         ok = (len(w.items) == 1 and _src(w.items[0].context_expr) == "_ANALYSIS_LOCK" and w.items[0].optional_vars is None
-              and [_src(x) for x in w.body] == ["return self._extract_metadata_locked(allow_setup_py, source_dir)"])
+              and len(w.body) == 1 and isinstance(w.body[0], ast.Return) and isinstance(w.body[0].value, ast.Call))
+        if ok:
+            call = w.body[0].value
+            ok = (_src(call.func) == "self._extract_metadata_locked"
+                  and [_src(x) for x in call.args][:2] == ["allow_setup_py", "source_dir"]
+                  and all(isinstance(x, ast.Name) and x.id in extra for x in call.args[2:])
+                  and all(k.arg is not None and isinstance(k.value, ast.Name) and k.value.id in extra for k in call.keywords))
         if not ok:
             raise TranslateError("_extract_metadata: lock wrapper changed:\n" + _src(w))
         lock = _src(T.module_const(mod, "_ANALYSIS_LOCK"))
         if lock not in ("threading.RLock()", "threading.Lock()"):
             raise TranslateError("_ANALYSIS_LOCK is not a threading lock: " + lock)
         em = _method(cls, "_extract_metadata_locked")
-        if [a.arg for a in em.args.args] != ["self", "allow_setup_py", "source_dir"]:
-            raise TranslateError("_extract_metadata_locked: argument list changed")
+        extra = _params(em, ["self", "allow_setup_py", "source_dir"], "_extract_metadata_locked")
         serialised = True
+    if len(em.body) != 2:
+        raise TranslateError(f"_extract_metadata: body has {len(em.body)} statements, 2 expected (deferral, analysis)")
     first = em.body[0]
     ok = (isinstance(first, ast.If) and _src(first.test) == "not allow_setup_py" and not first.orelse
           and len(first.body) == 1 and isinstance(first.body[0], ast.If) and not first.body[0].orelse
@@ -166,15 +234,19 @@ def read_source(ctx: Any = None) -> dict:
             and isinstance(t.args[0].args[1], ast.Constant) and isinstance(t.args[0].args[1].value, str)):
         raise TranslateError("_extract_metadata: deferral test changed: " + _src(t))
     defer_file = t.args[0].args[1].value
-    second = em.body[1] if len(em.body) == 2 else None
+    second = em.body[1]
     ok = (isinstance(second, ast.Try) and not second.finalbody and not second.orelse
           and [_src(h.type) for h in second.handlers] == ["req_compile.errors.MetadataError", "SystemExit"]
-          and all(_src(h.body[-1]) == "return (source_dir, None)" for h in second.handlers)
-          and all(not any(isinstance(n, ast.Raise) for x in h.body for n in ast.walk(x)) for h in second.handlers)
-          and _src(second.body[-1]) == "return (source_dir, req_compile.metadata.extract_metadata(source_dir, origin=self))")
+          and [_src(x) for x in second.body] == [_tmpl("return (source_dir, req_compile.metadata.extract_metadata(source_dir, origin=self))")])
+    if ok:
+        for h in second.handlers:
+            if not h.body or _src(h.body[-1]) != "return (source_dir, None)" or not all(_inert_self_update(x) for x in h.body[:-1]):
+                ok = False
     if not ok:
-        raise TranslateError("_extract_metadata: analysis block changed (handlers must be MetadataError, SystemExit, "
-                             "each returning (source_dir, None))")
+        raise TranslateError("_extract_metadata: analysis block changed (one return of extract_metadata(source_dir, origin=self); "
+                             "handlers MetadataError, SystemExit, each only returning (source_dir, None))")
+    if extra and (_uses(first, extra) or _uses(second, extra)):
+        raise TranslateError(f"_extract_metadata: the new parameter(s) {extra} are used by the modelled statements")
 
     # ---- _find_all_distributions: two passes
     fd = _method(cls, "_find_all_distributions")
@@ -187,7 +259,7 @@ def read_source(ctx: Any = None) -> dict:
             call = node.iter
             if len(call.args) == 2 and isinstance(call.args[0], ast.Call) and _src(call.args[0].func) == "functools.partial":
                 p = call.args[0]
-                if not (len(p.args) == 2 and _src(p.args[0]) == "self._extract_metadata"
+                if not (len(p.args) == 2 and _src(p.args[0]) == "self._extract_metadata" and not p.keywords
                         and isinstance(p.args[1], ast.Constant) and isinstance(p.args[1].value, bool)):
                     raise TranslateError("functools.partial(self._extract_metadata, <bool>) shape changed")
                 body_ok = (_src(node.target) == "(source_dir, result)" and len(node.body) == 1
@@ -201,8 +273,12 @@ def read_source(ctx: Any = None) -> dict:
     (l1, f1, allow1, it1), (l2, f2, allow2, it2) = partials
     if not (f1 == "map_func" and it1 == "source_dirs" and f2 == "map" and it2 == "self._find_later"):
         raise TranslateError(f"passes changed: {f1}({it1}) / {f2}({it2})")
-    if "map_func: Callable = map" not in fsrc or "map_func = pool.imap_unordered" not in fsrc or "if self.parallelism == 1:" not in fsrc:
+    choice = _tmpl("if self.parallelism == 1:\n    pool = None\n    map_func = map\nelse:\n"
+                   "    pool = ThreadPool(self.parallelism)\n    map_func = pool.imap_unordered")
+    if choice not in [_src(x) for x in fd.body]:
         raise TranslateError("_find_all_distributions: choice of map function changed")
+    if [a.arg for a in fd.args.args][:2] != ["self", "excluded_paths"]:
+        raise TranslateError("_find_all_distributions: argument list changed")
 
     # ---- get_candidates(None): all candidates
     gc = _src(_method(cls, "get_candidates"))
